@@ -283,6 +283,29 @@ def extra_props_stage(res, props_file, pinned):
     return True
 
 
+def aux_props_stage(res, props_file, pinned):
+    """Auxiliary theorems next to a property (Props/<Cxx>Aux.v): behaviour of the same code that the
+    property's statement does not cover (e.g. the CLTV-delta rule inside NodeState::validate_payments).
+    They are built and audited like every other theorem, but they do NOT decide the property: when one
+    no longer checks, the evidence says so under coverage.auxiliary and no alarm is raised, because
+    the property can still hold on such a tree."""
+    aux = {"file": "coq/theories/Props/" + props_file, "pinned": pinned}
+    res.coverage.setdefault("auxiliary", []).append(aux)
+    ok, out = build_coq(["theories/Props/%s.vo" % props_file[:-2]])
+    if not ok:
+        aux["checked"] = False
+        aux["log"] = out[-1500:]
+        log("[auxiliary theorems of %s no longer check - not part of the property, no alarm]" % props_file)
+        return False
+    thms = theorem_names(props_file)
+    ass = assumptions("Props." + props_file[:-2], thms)
+    foreign = sorted({a for v in ass.values() for a in v if a not in ALLOWED_AXIOMS})
+    aux["checked"] = not foreign and all(t in thms for t in pinned)
+    aux["theorems"] = thms
+    aux["foreign_axioms"] = foreign
+    return aux["checked"]
+
+
 def theorem_names(props_file):
     txt = open(os.path.join(COQ, "theories", "Props", props_file)).read()
     return re.findall(r"^(?:Theorem|Example|Corollary|Lemma)\s+([\w']+)", txt, flags=re.M)
